@@ -150,9 +150,17 @@ class ObjectiveTasksStartLatest(Objective):
             name="MinimumStartTime", expression=smallest_start_time
         )
 
-        # compute the minimum of start times for all tasks
+        # compute the minimum of start times for all tasks. An optional task that is
+        # not scheduled must not count: it is given the latest possible start
+        horizon = processscheduler.base.active_problem._horizon
         assertions = get_minimum(
-            smallest_start_time, [task._start for task in list_of_tasks]
+            smallest_start_time,
+            [
+                z3.If(task._scheduled, task._start, horizon)
+                if task.optional
+                else task._start
+                for task in list_of_tasks
+            ],
         )
         mini_start_time_indicator.append_z3_list_of_assertions(assertions)
 
@@ -204,9 +212,14 @@ class ObjectiveMinimizeGreatestStartTime(Objective):
             name="GreatestStartTime", expression=greatest_start_time
         )
 
-        # compute the maximum of start times for all tasks
+        # compute the maximum of start times for all tasks. An optional task that is
+        # not scheduled must not count: it is given the earliest possible start
         assertions = get_maximum(
-            greatest_start_time, [task._start for task in list_of_tasks]
+            greatest_start_time,
+            [
+                z3.If(task._scheduled, task._start, 0) if task.optional else task._start
+                for task in list_of_tasks
+            ],
         )
         greatest_start_time_indicator.append_z3_list_of_assertions(assertions)
 
